@@ -273,6 +273,10 @@ def corpus_queries(heavy=False):
           "anc": [["お", "御", {"Affix": "Prefix"}]]}
     for inp in ["か\u3099っこう", "おか\u3099っこう", "は\u309aん", "がっこう", "か\u3099"]:
         qs.append({"op": "kkc_query", "dict": d6, "context": "Normal", "freq": [], "input": inp, "n": 100})
+    # alphabetic readings: the input in another case is not the reading
+    d7 = {"alphabet": FULL_ALPHA, "std": [["tel", "電話", {"Noun": "Common"}], ["ok", "了解", {"Noun": "Common"}], ["あい", "愛", {"Noun": "Common"}]], "anc": [["で", "で", {"Particle": "Case"}]]}
+    for inp in ["Telで", "TELで", "tEl", "OKで", "oK", "telで", "okで", "あいOK"]:
+        qs.append({"op": "kkc_query", "dict": d7, "context": "Normal", "freq": [], "input": inp, "n": 100})
     # voiced / unvoiced neighbours after a prefix (おざけ is not お + さけ)
     d2 = {"alphabet": FULL_ALPHA, "std": [["さけ", "酒", {"Noun": "Common"}], ["かみ", "紙", {"Noun": "Common"}], ["はし", "箸", {"Noun": "Common"}]],
           "anc": [["お", "御", {"Affix": "Prefix"}], ["てき", "的", {"Affix": "Suffix"}]]}
